@@ -63,7 +63,10 @@ class ConstOperands:
         return {"num": "array", "shape": list(shape), "kind": kind, "values": vals, "const": True}
 
     def related(self, draw, base, shape, kind=None):
-        return self.array(draw, shape=shape, kind=kind or base.get("kind"))
+        if kind is None:
+            # mostly the same kind, sometimes the other one (int with float: numpy promotes)
+            kind = base.get("kind") if draw(st.integers(0, 2)) else draw(st.sampled_from(list(self.kinds)))
+        return self.array(draw, shape=shape, kind=kind)
 
 
 def P(desc):
